@@ -22,7 +22,7 @@ DROPPED = [
 GLOBAL_ASSUMPTIONS = [
     "A-ENG: govc (go/ssa -> SMT translation, contract parser), go/ssa, go/types, z3 4.8.12, z3 5.1.0, cvc5 1.0 are correct",
     "A-META: per-operation two-state contracts + representation invariant imply the property over all finite sequential histories (induction on the history)",
-    "A-ARCH: linux/amd64, int and uint are 64 bit; machine integers are modelled exactly (wrap-around), contracts use mathematical integers",
+    "A-ARCH: linux/amd64, int and uint are 64 bit; machine integers are modelled exactly (wrap-around), contracts use mathematical integers; no slice (other than []byte) or map has more than 2^48 elements (address space)",
     "A-NONNIL: receivers and pointer parameters of the functions under contract are non-nil unless declared nullable",
     "A-LIB1: library functions listed in contracts/pure.txt modify nothing reachable from their arguments and do not panic on arguments satisfying their stated precondition",
 ]
@@ -51,7 +51,7 @@ def short_fn(fn):
 
 
 def run_govc(pid, tier, outdir, extra=None):
-    timeout = 10 if tier == "quick" else 60
+    timeout = 20 if tier == "quick" else 90
     cmd = [os.path.join(ROOT, "bin", "govc"), "-repo", REPO, "-verif", ROOT, "-props", pid,
            "-out", outdir, "-timeout", str(timeout), "-j", "12"]
     if extra:
@@ -190,7 +190,7 @@ def run_property(pid, tier, seed):
             "discharged": len(discharged),
             "obligations_generated": n_claimed,
             "obligations_behind_known_findings": len(known_hits),
-            "checker_cmd": "bin/govc -props %s -timeout %d (z3-new 5.1.0 | cvc5 1.0 | z3 4.8.12 raced per obligation)" % (pid, 10 if tier == "quick" else 60),
+            "checker_cmd": "bin/govc -props %s -timeout %d (z3-new 5.1.0 | cvc5 1.0 | z3 4.8.12 raced per obligation)" % (pid, 20 if tier == "quick" else 90),
             "trusted_base": sorted(trusted) + ["uncontracted callee (results arbitrary, reachable memory havocked): " + u for u in sorted(unconstrained)],
             "functions_under_contract": [short_fn(f["fn"]) for f in res["functions"]],
             "functions_translated": len(res["functions"]),
